@@ -540,6 +540,8 @@ pub fn write_evidence(dir: &str, e: &EvidenceInput) -> std::io::Result<()> {
       "real": ["microscpi::parser", "microscpi::tree", "microscpi::value", "microscpi::response", "microscpi::error", "microscpi::error_queue", "microscpi::commands", "Interface::execute/run/process", "#[microscpi::interface] output for the generated interface menu"],
       "stub": ["Adapter (scripted transport)", "Write sink (recording pass-through writer)", "user handlers (recording, scripted suspension and failure)", "ErrorHandler / ErrorQueue wrapper (recording, delegates to the real StaticErrorQueue)", "executor (single task poll loop)", "global allocator wrapper (counts allocations inside library code)", "controller (pipelined / lock-step)"]
     }},
+    "tree_seed": {tree_seed},
+    "additional_batches": {extra},
     "exhaustive": false
   }},
   "assumptions": [{assumptions}],
@@ -570,6 +572,8 @@ pub fn write_evidence(dir: &str, e: &EvidenceInput) -> std::io::Result<()> {
         wall = e.res.wall_s,
         viol = e.violations,
         known = e.known,
+        tree_seed = simcore::spec::TREE_SEED,
+        extra = json_str(&std::env::var("SIM_EXTRA_NOTE").unwrap_or_else(|_| "none".into())),
     );
     std::fs::create_dir_all(format!("{dir}/evidence"))?;
     std::fs::write(format!("{dir}/evidence/{}.json", e.prop.id()), text)
